@@ -109,6 +109,22 @@ def _match_filter(clo, fn):
     body = clo["body"]
     while body["k"] == "Block" and len(body["stmts"]) == 1 and body["stmts"][0]["k"] == "ExprStmt" and not body["stmts"][0].get("semi"):
         body = body["stmts"][0]["expr"]
+    if body["k"] == "If" and body["cond"].get("k") == "Let" and body.get("else") is not None:
+        # `if let P = scrut { Some(..) } else { None }`
+        def _val(b):
+            while b["k"] == "Block" and len(b["stmts"]) == 1 and b["stmts"][0]["k"] == "ExprStmt" and not b["stmts"][0].get("semi"):
+                b = b["stmts"][0]["expr"]
+            return b
+        t, e = _val(body["then"]), _val(body["else"])
+        if t["k"] == "Call" and t["func"]["k"] == "Path" and t["func"]["path"] == "Some" and e["k"] == "Path" and e["path"] == "None":
+            vs = A.pat_variants(body["cond"]["pat"])
+            if vs:
+                segs = vs[0][0].split("::")
+                en = segs[-2] if len(segs) > 1 else "?"
+                if en == "Self":
+                    en = fn.self_ty or "Self"
+                return body["cond"]["expr"], f"{en}::{'|'.join(sorted(v[0].split('::')[-1] for v in vs))}"
+        return None
     if body["k"] != "Match":
         return None
     kept, enum = [], None
@@ -445,6 +461,7 @@ def _exemptions(repo, fn):
         up = pm.get(id(blk))
         return up is not None and up[0]["k"] == "If" and up[1] == "then"
 
+    consumed = set()
     ret_bool = "".join((fn.node.get("ret") or "").split()) == "bool"
 
     def spelled_out_quantifier(ret):
@@ -484,6 +501,10 @@ def _exemptions(repo, fn):
                 out.append(("return-ok", guard_chain(n) + (" => " + txt[:40] if txt else ""), n["l"]))
         elif k == "MethodCall" and n["method"] == "filter_map" and n["args"] and n["args"][0]["k"] == "Closure" and _match_filter(n["args"][0], fn):
             scrut, keep = _match_filter(n["args"][0], fn)
+            b_ = n["args"][0]["body"]
+            while b_["k"] == "Block" and len(b_["stmts"]) == 1 and b_["stmts"][0]["k"] == "ExprStmt":
+                b_ = b_["stmts"][0]["expr"]
+            consumed.add(id(b_))  # the `if let` that IS this variant filter is not a second exemption
             out.append(("filter", f"is<{keep}>({render(scrut, envs.get(id(scrut)))})", n["l"]))
         elif k == "MethodCall" and n["method"] in DROPPERS:
             clo = [a for a in n["args"] if a["k"] == "Closure"]
@@ -491,6 +512,8 @@ def _exemptions(repo, fn):
                 out.append((n["method"], closure_key(repo, fn, envs, clo[0]), n["l"]))
             else:
                 out.append((n["method"], "(" + ", ".join(render(a, envs.get(id(n))) for a in n["args"]) + ")", n["l"]))
+        elif k in ("If", "While") and id(n) in consumed:
+            pass
         elif k in ("If", "While") and not (k == "If" and A.diverges(n["then"])):
             # a positive guard: the effect below happens only under this condition (strengthening it skips elements silently)
             if k == "If" and id(n) in pm and pm[id(n)][0]["k"] == "If" and pm[id(n)][1] == "else":
